@@ -355,6 +355,21 @@ def choice_pair() -> dict:
     }
 
 
+def or_split_in_loop() -> dict:
+    """A retry loop around an OR-split whose choice changes between iterations: a routes to b in the first
+    iteration (b jumps back to a) and to c in the second, where b is skipped."""
+    return {
+        "name": "or_split_in_loop",
+        "confluent": True,
+        "stages": [
+            st("a", [], [dict(OK, raw_by_iter={"0": {"go_b": True, "go_c": False}, "1": {"go_b": False, "go_c": True}}, out=["a_o"])], split="OR", conds={"b": "go_b", "c": "go_c"}),
+            st("b", ["a"], [{"kind": "jump", "to": "a", "times": 1, "out": ["b_o"]}]),
+            st("c", ["a"], [dict(OK, out=["c_o"])]),
+            st("d", ["b", "c"], [dict(OK, out=["d_o"])], join="OR"),
+        ],
+    }
+
+
 def stopped_branch() -> dict:
     """r -> x (fails with failPipeline=False: ends STOPPED, the workflow goes on) next to r -> a -> y: whatever the
     order in which x's CompleteWorkflow and the other branch's messages arrive, a and y run."""
@@ -390,6 +405,7 @@ CONFLUENT_FAMILY = [
     or_split,
     skip_stage,
     stopped_branch,
+    or_split_in_loop,
 ]
 
 
